@@ -3,7 +3,7 @@
    Spec/C14.v (expected_tokens, C14_holds, check_C14, name_ok/env_ok, visitor_wf).  Proofs: Proofs/QuoteProof.v,
    Proofs/VisitorsProof.v, Proofs/C14Final.v. *)
 From Coq Require Import List NArith Bool String.
-From AV Require Import Spec.C14 Proofs.QuoteProof Proofs.VisitorsProof Proofs.C14Final.
+From AV Require Import Spec.C14 Proofs.QuoteProof Proofs.VisitorsProof Proofs.C14Final Proofs.C14Inner.
 Import ListNotations.
 Open Scope N_scope.
 
@@ -95,6 +95,17 @@ Proof.
 Qed.
 Print Assumptions C14_schema_qualifies_every_table.
 
+(* a literal of a visitor that carries SQL (T-SQL exec('alter table ...'), sp_rename '<qualified name>' — every literal
+   without a raw name): its content, which is the SLit token of the statement, reads as exactly the expected tokens too *)
+Theorem C14_inner_sql_sound : forall d c e ps,
+  In (StrLit ps) (visitor d c) -> is_data_literal ps = false -> env_ok (qspec_of d) e = true ->
+  lex (qspec_of d) (concat (map (inner_expected (qspec_of d) e) ps)) = expected_tokens (qspec_of d) e (map as_piece ps).
+Proof.
+  intros d c e ps I D E. pose proof (literal_table d c _ I) as L. cbn [literal_ok] in L. rewrite D in L.
+  exact (inner_sql_sound _ e ps L E).
+Qed.
+Print Assumptions C14_inner_sql_sound.
+
 (* exact agreement with the model transfers the theorem to the observed output *)
 Theorem C14_corr_transfers : forall d k e out, corr_C14 (CaseStmt d k e) (ObsStmt out) = true ->
   env_ok (qspec_of d) e = true -> C14_holds (d, k, e) out.
@@ -165,6 +176,15 @@ Example C14_visitor_sound_nonvacuous :
   visitor_wf (qspec_of Mssql) (visitor Mssql CColumnName) = true /\ env_ok (qspec_of Mssql) nv_env = true /\
   exists sql, render (qspec_of Mssql) nv_env (visitor Mssql CColumnName) = ROk sql.
 Proof. repeat split; try (vm_compute; reflexivity). eexists. vm_compute. reflexivity. Qed.
+
+Example C14_inner_sql_nonvacuous :
+  In (StrLit [IK "alter table "; (true, ITbl NTable true); IK " drop constraint "]) (visitor Mssql CMssqlDropFK) /\
+  is_data_literal [IK "alter table "; (true, ITbl NTable true); IK " drop constraint "] = false /\
+  lex (qspec_of Mssql) (concat (map (inner_expected (qspec_of Mssql) nv_env)
+                                   [IK "alter table "; (true, ITbl NTable true); IK " drop constraint "]))
+  = [Word (s2l "alter"); Word (s2l "table"); QIdent (s2l "My"); Punct 46; QIdent (s2l "sch x"); Punct 46;
+     QIdent (s2l "it's ]a""b`"); Word (s2l "drop"); Word (s2l "constraint")].
+Proof. split; [vm_compute; tauto|]. split; vm_compute; reflexivity. Qed.
 
 Example C14_strip_lex_nonvacuous :
   pending (end_st (qspec_of Postgresql) (s2l "ALTER TABLE t ALTER COLUMN c TYPE INTEGER ")) = true /\
